@@ -10,6 +10,16 @@ class Lab:
         self.structs = []     # (name, ctrl, fields, exact)
         self.n = 0
 
+    # ---------------------------------------------------------------- spellings of the two wrapper types
+    def opt(self, rt):
+        c = self.rng.random()
+        return (f"Option<{rt}>" if c < 0.7 else f"std::option::Option<{rt}>" if c < 0.8 else f"::std::option::Option<{rt}>" if c < 0.9
+                else f"core::option::Option<{rt}>")
+
+    def vec(self, rt):
+        c = self.rng.random()
+        return f"Vec<{rt}>" if c < 0.7 else f"std::vec::Vec<{rt}>" if c < 0.85 else f"::std::vec::Vec<{rt}>"
+
     # ---------------------------------------------------------------- leaf field kinds
     def int_ty(self):
         return self.rng.choice(INTS)
@@ -105,11 +115,11 @@ class Lab:
             rt, tj, ln, enc, exact = self.field_type(depth, True, greedy_ok, None)
             wrap = r.random()
             if exact and (ln.startswith("fixed") or ln in ("tlv", "llv:2", "llv:3")) and wrap < 0.2:
-                rt, tj = f"Option<{rt}>", {"k": "opt", "t": tj}
+                rt, tj = self.opt(rt), {"k": "opt", "t": tj}
             elif last and n_tagged == 0 and tj["k"] == "struct" and ln == "empty" and not exact and wrap < 0.5:
-                rt, tj = f"Option<{rt}>", {"k": "opt", "t": tj}
+                rt, tj = self.opt(rt), {"k": "opt", "t": tj}
             elif last and n_tagged == 0 and tj["k"] == "int" and ln == "empty" and enc in ("dflt", "be") and wrap < 0.25:
-                rt, tj = f"Vec<{rt}>", {"k": "vec", "t": tj}
+                rt, tj = self.vec(rt), {"k": "vec", "t": tj}
             fields.append({"name": f"f{i}", "rust_ty": rt, "ty": tj, "tag": None, "tag_src": None, "length": ln, "encoding": enc})
         via = [r.random() < 0.5 for _ in range(n_tagged)]
         tags = self.tag_numbers(n_tagged, any(via))
@@ -123,9 +133,9 @@ class Lab:
                 ln = "tlv"
             w = r.random()
             if w < 0.45:
-                rt, tj = f"Option<{rt}>", {"k": "opt", "t": tj}
+                rt, tj = self.opt(rt), {"k": "opt", "t": tj}
             elif w < 0.65:
-                rt, tj = f"Vec<{rt}>", {"k": "vec", "t": tj}
+                rt, tj = self.vec(rt), {"k": "vec", "t": tj}
             fields.append({"name": f"f{n_pos + j}", "rust_ty": rt, "ty": tj, "tag": t, "tag_src": "tlv" if tlv else "bmp", "length": ln, "encoding": enc})
         ctrl = None
         if allow_ctrl and depth == 0 and r.random() < 0.5:
